@@ -245,6 +245,7 @@ class Program:
 
     # ---------------------------------------------------------------- loading
     def _load(self, include_tests: bool) -> None:
+        self.restored: list[str] = []
         for dirpath, dirnames, filenames in os.walk(self.root):
             dirnames.sort()
             if not include_tests:
@@ -268,6 +269,8 @@ class Program:
                     tree = ast.parse(src, filename=path)
                 except SyntaxError as e:  # the build is broken; nothing can be decided
                     raise AnalysisError(f'cannot parse {rel}: {e}')
+                from . import baseline
+                tree = baseline.restore(rel, tree, self.restored)
                 if os.environ.get('VERIF_NO_CANON') != '1':
                     from .canon import canonicalise
                     tree = canonicalise(tree)
